@@ -64,6 +64,8 @@ func build(td *TypeDesc) reflect.Type {
 		return reflect.MapOf(scalarTypes["string"], build(td.Elem))
 	case "mapint":
 		return reflect.MapOf(scalarTypes["int"], build(td.Elem))
+	case "mapnstr":
+		return reflect.MapOf(reflect.TypeOf(NStr("")), build(td.Elem))
 	case "ptr":
 		return reflect.PointerTo(build(td.Elem))
 	case "chan":
@@ -105,6 +107,8 @@ func (td *TypeDesc) String() string {
 		return "map[string]" + td.Elem.String()
 	case "mapint":
 		return "map[int]" + td.Elem.String()
+	case "mapnstr":
+		return "map[NStr]" + td.Elem.String()
 	case "ptr":
 		return "*" + td.Elem.String()
 	case "pool":
@@ -173,7 +177,7 @@ func components(td *TypeDesc, out *[]*TypeDesc) {
 		for i := range td.Fields {
 			components(&td.Fields[i].Type, out)
 		}
-	case "ptr", "slice", "map", "array":
+	case "ptr", "slice", "map", "array", "mapnstr":
 		if td.Kind == "map" {
 			*out = append(*out, td)
 		}
@@ -264,6 +268,11 @@ func (g *typeGen) typ(t *rapid.T, depth int) TypeDesc {
 		return TypeDesc{Kind: "slice", Elem: &e}
 	case w < 52:
 		e := g.typ(t, depth+1)
+		if g.cfg.Pool && rapid.IntRange(0, 7).Draw(t, "nkey") == 0 {
+			// a NAMED string type as key (a refusal candidate on the unfold side:
+			// refused with an error or handled correctly, never a crash)
+			return TypeDesc{Kind: "mapnstr", Elem: &e}
+		}
 		return TypeDesc{Kind: "map", Elem: &e}
 	case w < 64:
 		e := g.typ(t, depth+1)
@@ -289,7 +298,7 @@ func (g *typeGen) typ(t *rapid.T, depth int) TypeDesc {
 					continue
 				}
 				names = append(names, p.Name)
-				if p.FoldOnly || p.NeedsUnfoldOpts || strings.HasPrefix(p.Name, "Exp") {
+				if p.FoldOnly || p.NeedsUnfoldOpts || strings.HasPrefix(p.Name, "Exp") || p.Name == "FRefObj" {
 					// types with custom folders / unfolders: where the library's
 					// kind-based fast paths and its user hooks meet
 					names = append(names, p.Name, p.Name)
@@ -467,6 +476,9 @@ func inlineable(td *TypeDesc, onlyStruct bool) bool {
 	case "ptr":
 		return !onlyStruct && inlineable(td.Elem, onlyStruct) && td.Elem.Kind != "iface"
 	case "pool":
+		if td.Pool == "FRefObj" {
+			return true // a plain struct for the unfolder, a folder for Fold
+		}
 		return !onlyStruct && (td.Pool == "FolderObj" || td.Pool == "FolderPtr" || td.Pool == "NMapInt" || td.Pool == "NMapAny" || td.Pool == "WithEmb" || td.Pool == "FCounts" || td.Pool == "FDeleg")
 	}
 	return false
